@@ -114,6 +114,7 @@ struct Runner : Hooks {
   void on_park(Thread *, Kind) override;
   void on_clock(Thread *, int64_t ms) override;
   void on_libcall(Thread *, Kind, bool child_side) override;
+  void on_preempt(Thread *) override;
   void check_image(Thread *t, Proc *c, ExecImage *img);
 };
 
